@@ -144,6 +144,8 @@ structure Core (V : St → List Val) (s : St) (cs : List Nat) : Prop where
   cs_le : ∀ c ∈ cs, c ≤ s.descs.length
   phase : PhaseRel V s cs (foldItems cs (items V s))
   regs : RegsRel s cs (foldItems cs (items V s))
+  /-- completeness: every item that wants an owner has got a link -/
+  complete : ∀ i, consumes (items V s) i = true → ∃ o, (i, o) ∈ s.links
 
 theorem Core.pos {V : St → List Val} {s : St} {cs : List Nat} (h : Core V s cs) :
     (foldItems cs (items V s)).pos = s.descs.length := by
